@@ -16,6 +16,10 @@ EXTENDS BipartiteOps, TLC, Json, IOUtils
 
 Data == JsonDeserialize(IOEnv.TRACE_FILE)
 Tr == Data.traces
+(* Two levels (harness/parallel.py): Strict = the full specification of what the code does (Hopcroft-Karp phases: BFS   *)
+(* results, shortest augmenting paths, the matching is the model state).  The property C18 only speaks about the      *)
+(* returned matching and cover; with Strict = FALSE the bfs / aug events are removed and only those clauses decide.    *)
+Strict == IF "strict" \in DOMAIN Data THEN Data.strict ELSE TRUE
 
 VARIABLES tid, l, E, Us, Vs, mu, pc, k, naug, cover
 vars == <<tid, l, E, Us, Vs, mu, pc, k, naug, cover>>
@@ -68,7 +72,7 @@ TMatching == /\ HasRec /\ Rec.ev = "matching" /\ pc \in {"bfs", "done"}
              /\ \A i \in 1..Len(Rec.pairs) : Rec.pairs[i][1] \in Us /\ Rec.pairs[i][2] \in Vs
              /\ \A i, j \in 1..Len(Rec.pairs) : i # j => Rec.pairs[i][1] # Rec.pairs[j][1]
              /\ IsMatching(E, LoggedMatching, Vs)
-             /\ pc = "done" => LoggedMatching = mu
+             /\ (Strict /\ pc = "done") => LoggedMatching = mu
              /\ pc = "bfs" => naug = 0 /\ k = 0          \* no hook events at all
              /\ ~AugPathExists(E, LoggedMatching, Vs)
              /\ mu' = LoggedMatching /\ pc' = "matched"
@@ -87,7 +91,13 @@ TCover == /\ HasRec /\ Rec.ev = "cover" /\ pc = "matched"
           /\ UNCHANGED <<E, Us, Vs, mu, k, naug>>
           /\ Advance
 
-TStep == TGraph \/ TBfs \/ TAug \/ TMatching \/ TCover
+(* a history: the solver (the same HopcroftKarp object, or a new one on the same graph) is invoked again *)
+TAgain == /\ HasRec /\ Rec.ev = "again" /\ pc = "matched"
+          /\ mu' = EmptyMatching(Us) /\ pc' = "bfs" /\ k' = 0 /\ naug' = 0
+          /\ UNCHANGED <<E, Us, Vs, cover>>
+          /\ Advance
+
+TStep == TGraph \/ TBfs \/ TAug \/ TMatching \/ TCover \/ TAgain
 
 TNextTrace == /\ tid <= Len(Tr) /\ l > Len(Tr[tid])
               /\ pc = "end"
@@ -96,16 +106,16 @@ TNextTrace == /\ tid <= Len(Tr) /\ l > Len(Tr[tid])
 
 FailedClause ==
     IF Rec.ev = "raise" THEN Rec.exc
-    ELSE IF Rec.ev = "aug" THEN (IF pc # "aug" THEN "aug outside phase"
-                                 ELSE IF ~IsAugPath(E, mu, Vs, Rec.path) THEN "not an augmenting path of the current matching"
-                                 ELSE "path length differs from BFS layer distance")
-    ELSE IF Rec.ev = "bfs" THEN "BFS result differs from shortest augmenting path length"
+    ELSE IF Rec.ev = "aug" THEN (IF pc # "aug" THEN "spec: aug outside phase"
+                                 ELSE IF ~IsAugPath(E, mu, Vs, Rec.path) THEN "spec: not an augmenting path of the current matching"
+                                 ELSE "spec: path length differs from BFS layer distance")
+    ELSE IF Rec.ev = "bfs" THEN "spec: BFS result differs from shortest augmenting path length"
     ELSE IF Rec.ev = "matching" THEN
         (IF ~(\A i \in 1..Len(Rec.pairs) : Rec.pairs[i][1] \in Us /\ Rec.pairs[i][2] \in Vs) THEN "matching vertex out of range"
          ELSE IF ~(\A i, j \in 1..Len(Rec.pairs) : i # j => Rec.pairs[i][1] # Rec.pairs[j][1]) THEN "U vertex matched twice"
          ELSE IF ~IsMatching(E, LoggedMatching, Vs) THEN "not a matching of existing edges"
          ELSE IF AugPathExists(E, LoggedMatching, Vs) THEN "matching not maximum (augmenting path exists)"
-         ELSE "matching differs from model state")
+         ELSE "spec: matching differs from model state")
     ELSE IF Rec.ev = "cover" THEN
         (LET cu == SeqToSet(Rec.uc)  cv == SeqToSet(Rec.vc)
          IN IF ~(cu \subseteq Us /\ cv \subseteq Vs) THEN "cover vertex out of range"
